@@ -555,7 +555,19 @@ def check_case(case, ctx):
             ctx.count('replacement_generation_failed:' + type(e).__name__)
             continue
         ctx.count('replace:kind:' + kind)
-        c3 = _build(net, case, rng, blocks=False)
+        c3 = _build(net, case, rng, blocks=rng.random() < 0.5)
+        if c3.blocks:
+            # more user blocks that overlap the region or not (their fate is the library's business, but every block
+            # that survives must still name existing gates)
+            try:
+                with monitor.suspended():
+                    inner_ = [l for l in net.gates if net.gates[l][0] != 'INPUT']
+                    for bi in range(rng.randint(0, 2)):
+                        gs_ = rng.sample(inner_, rng.randint(1, min(3, len(inner_))))
+                        c3.make_block('ub%d' % bi, gs_, gs_[:1])
+                ctx.count('replace:with_user_blocks')
+            except Exception as e:
+                ctx.count('make_block_failed:' + type(e).__name__)
         CUR['case'] = dict(case, failing=['replace_subcircuit', kind, netgen.describe(sub2), imap, omap])
         try:
             with monitor.suspended():
